@@ -86,8 +86,11 @@ def parseInfo (bc ho ve tcp http : String) : Option Info :=
   | some bc, some ho, some ve, some tcp, some http => some ⟨bc, ho, ve, tcp, http⟩
   | _, _, _, _, _ => none
 
-/-- `body=bcast/host/ver/tcp/http` entries: what json.Unmarshal returned for those bodies -/
-def parseDecode : List String → List (List UInt8 × Info)
+/-- `body=bcast/host/ver/tcp/http[/used]` entries: what the JSON value parser (json.Decoder on exactly
+these bytes) returned for those bodies: the five fields and how many bytes the first value
+occupies (absent = all of them). Whether the REST is acceptable is decided by the model
+(`unmarshal`), not by the harness. -/
+def parseDecode : List String → List (List UInt8 × Info × Nat)
   | [] => []
   | w :: ws =>
     match w.splitOn "=" with
@@ -95,13 +98,20 @@ def parseDecode : List String → List (List UInt8 × Info)
       match unhex b, i.splitOn "/" with
       | some b, [bc, ho, ve, tcp, http] =>
         match parseInfo bc ho ve tcp http with
-        | some inf => (b, inf) :: parseDecode ws
+        | some inf => (b, inf, b.length) :: parseDecode ws
         | none => parseDecode ws
+      | some b, [bc, ho, ve, tcp, http, used] =>
+        match parseInfo bc ho ve tcp http, used.toNat? with
+        | some inf, some u => (b, inf, u) :: parseDecode ws
+        | _, _ => parseDecode ws
       | _, _ => parseDecode ws
     | _ => parseDecode ws
 
-def decodeOf (tbl : List (List UInt8 × Info)) (b : List UInt8) : Option Info :=
+def valueOf (tbl : List (List UInt8 × Info × Nat)) (b : List UInt8) : Option (Info × Nat) :=
   (tbl.find? (fun e => e.1 = b)).map (·.2)
+
+def decodeOf (tbl : List (List UInt8 × Info × Nat)) : List UInt8 → Option Info :=
+  unmarshal (valueOf tbl)
 
 def endStr : End → String
   | .panic => "panic"
